@@ -128,9 +128,13 @@ def handler : Handler S where
           | some 0 => none
           | some d => some (fun st => st + d)
           | none => none
+        -- `ClientConfig.Validate`: a compressed type must carry a level `ValidateParams` accepts
+        let valid := match kvInt rest "lvl" with
+          | some l => !isCompressed ct || levelAccepted ct l
+          | none => false
         ({ s with cfg := cfg, custom := custom, eh := eh, snap := s.proc, proc := s.proc.construct ⟨cfg, custom⟩, ct := ct, clientOk := ok,
                   cur := none },
-         [if ok then "obs cfg client=ok" else "obs cfg client=err"])
+         [if !valid then "obs cfg client=invalid" else if ok then "obs cfg client=ok" else "obs cfg client=err"])
       | _, _, _ => (s, ["obs bad-op"])
     | "conc" :: rest =>
       -- overlapping requests through a default server: each is a round trip within the (default) limit, so every
@@ -173,9 +177,7 @@ def handler : Handler S where
           match rdMode with
           | none => (s, ["obs bad-op rd"])
           | some rdMode =>
-          let out := Outcome.read rdMode <| match serveP s.snap codec srv rq with
-            | .rejected st => Outcome.rejected (match s.eh with | some f => f st | none => st)   -- = `serveE`
-            | o => o
+          let out := Outcome.read rdMode <| (serveP s.snap codec srv rq).answeredBy s.eh   -- `serveE` inside the process
           let reached := match decoderFor srv rq.encoding with
             | some (.lib _) => true
             | _ => false
@@ -183,8 +185,15 @@ def handler : Handler S where
           let info : ReqInfo := { sent := if garbage then none else some (handlerReads rdMode ⟨b, true⟩).data, wireLen := rq.wire.data.length,
                                   hashed := !garbage, plainLen := b.length, plain := b,
                                   configured := if mode == "client" && hdr == "" then some (if isCompressed s.ct then s.ct else "") else none }
+          -- what the request looks like to the handler (only observable when it runs)
+          let clientEncodes := mode == "client" && hdr == "" && isCompressed s.ct
+          let known := !(kv rest "chunked" == some "1") || clientEncodes
+          let view := handlerView (s.snap.server srv) rq known
+          let viewLine := match out with
+            | .handled _ => [s!"obs view cl={match view.contentLength with | some n => toString n | none => "-1"} ce={if view.hasEncodingHeader then 1 else 0}"]
+            | _ => []
           ({ s with cur := some info },
-           [s!"obs sent enc={hex rq.encoding} n={if rq.encoding = "" then 0 else 1} wire={rq.wire.data.length}", showOutcome (!garbage) out])
+           viewLine ++ [s!"obs sent enc={hex rq.encoding} n={if rq.encoding = "" then 0 else 1} wire={rq.wire.data.length}", showOutcome (!garbage) out])
       | _, _, _, _, _ => (s, ["obs bad-op"])
     | _ => (s, ["obs bad-op"])
   onObs := fun s toks =>
@@ -194,6 +203,7 @@ def handler : Handler S where
       | some e, some w => { s with implEnc := e, implWire := w }
       | _, _ => { s with fails := "sig=C16/harness/unparsable-sent" :: s.fails }
     | _ :: "cfg" :: _ => s
+    | _ :: "view" :: _ => s
     | _ :: "conc" :: rest =>
       match kvNat rest "total", kvNat rest "exact" with
       | some t, some e =>
